@@ -313,6 +313,11 @@ class ExprMixin:
 
     def e_IfExp(self, e):
         c = self.truth(self.eval(e.test))
+        cs = z3.simplify(c)
+        if z3.is_true(cs):
+            return self.eval(e.body)
+        if z3.is_false(cs):
+            return self.eval(e.orelse)
         a = self.eval_pure(lambda: self.eval(e.body), guard=c)
         b = self.eval_pure(lambda: self.eval(e.orelse), guard=z3.Not(c))
         return self.merge([(c, a), (z3.Not(c), b)])
